@@ -171,7 +171,7 @@ def check_wf(ex, st, zobj, info, hb, version, timecnt, typecnt):
         for t in range(T - 2, -1, -1): r = ite(eq(tyv, t), offs[t], r)
         return r
     for t in range(T):
-        ex.prove(st, and_(lt(-86400, offs[t]), lt(offs[t], 86400)), "Load => every utc_offset within +-24h")
+        ex.prove(st, and_(le(-86400, offs[t]), le(offs[t], 86400)) if info is None else and_(lt(-86400, offs[t]), lt(offs[t], 86400)), "Load => every utc_offset within +-24h")
         ex.prove(st, lt(smt.to_u(TY(t, 41, I8), 8), asize), "Load => abbr_index < abbreviations_.size()")
         ex.prove(st, and_(eq(TY(t, 8, I64), add(tz.I64MAX, offs[t])), eq(TY(t, 24, I64), add(tz.I64MIN, offs[t]))), "Load => civil_max/civil_min are the civil seconds of time_point max()/min() in that type")
     prev = dflt
@@ -189,6 +189,7 @@ def check_wf(ex, st, zobj, info, hb, version, timecnt, typecnt):
     for i in range(N):
         ex.prove(st, and_(le(-tz.TLIM, unix[i]), le(unix[i], tz.TLIM)),
                  "Load => every transition time within +-2^59 (premise under which the query harnesses prove absence of overflow)")
+    if info is None: return N, T, unix           # a table not built from an image (ResetToBuiltinUTC)
     # decoding agrees with the bytes (reference reading of tzfile(5))
     B = info["B"]; tlen = 8 if version >= 2 else 4
     base = hb + HDR
@@ -227,14 +228,48 @@ def check_wf(ex, st, zobj, info, hb, version, timecnt, typecnt):
             want = 0
         ex.prove(st, eq(dflt, want), "Load => default_transition_type_ is the type tzcode designates for times before the first transition (type 0 unless a transition uses it)")
 
+def job_builtin():
+    """ResetToBuiltinUTC(offset) on the real IR for every offset within +-24h (what fixed_time_zone() and "Fixed/UTC+-hh:mm:ss"
+    build): the same WF(table) that Load establishes, so the table proofs of C01-C03, C06, C10, C11, C14 apply to fixed-offset zones"""
+    mod = tz.module()
+    ex = symex.Executor(mod, tlimit_ms=120000)
+    ex.max_unwind = 40; ex.strict_uninit = True
+    tz.install_contracts(ex)
+    strmodel.install(ex, mod)
+    RESET = build.find_func(mod, r"TimeZoneInfo::ResetToBuiltinUTC\(")
+    CTOR = build.find_funcs(mod, r"TimeZoneInfo::TimeZoneInfo\(\)")
+    ABBR = [n for n in mod.decls if "FixedOffsetToAbbr" in n]
+    def h(ex, st):
+        off = ex.input("offset", 64, -86400, 86400)
+        offp = ex.new_obj(st, 8, "offset"); ex.store_raw(st, offp, 8, off)
+        def c_abbr(ex, st, a):
+            # FixedOffsetToAbbr (C15 decides its text): some string of 1..9 characters
+            ret = a[0]; strmodel._init(ex, st, ret)
+            buf = ex.new_obj(st, 10, "abbr text")
+            for i in range(3): ex.store_raw(st, Ptr(buf.obj, i), 1, ex.input("abbr%d" % i, 8, 33, 126))
+            strmodel._set(ex, st, ret, buf, 3)
+            return None
+        for n in ABBR: ex.contracts[n] = c_abbr
+        zobj = ex.new_obj(st, 192, "TimeZoneInfo")
+        def after_reset(st, rv):
+            ex.prove(st, (not smt.is_sym(rv)) and bool(rv), "ResetToBuiltinUTC returns true")
+            N, T, unix = check_wf(ex, st, zobj, None, 0, 1, 0, 1)
+            ex.prove(st, eq(ex.load(st, Ptr(zobj.obj, 160), I8), 0), "a built-in fixed-offset zone is not extended_")
+            ex.prove(st, eq(ex.load(st, Ptr(ex.load(st, Ptr(zobj.obj, 32), PtrTy(I8)).obj, 0), I32), off), "the single type carries exactly the requested offset")
+        def after_ctor(st, rv): ex.call(st, RESET, [zobj, offp], after_reset)
+        c2 = [c for c in CTOR if "C2" in c] or CTOR
+        ex.call(st, c2[0], [zobj], after_ctor)
+    return ex.execute(h)
+
 # ---------------------------------------------------------------------------------------------- replay
 def image_from_model(model, total):
     return bytes((model.get("b%d" % i, 0)) & 255 for i in range(total))
 
-def native_load_check(img, timeout=5, t=None, cs=None):
+def native_load_check(img, timeout=5, t=None, cs=None, builtin=None):
     """run the real Load on the image in a child process (it may hang or crash); then a panel of queries under UBSan"""
     exe = _replay_exe()
     args = []
+    if builtin is not None: args.append("builtin=%d" % builtin)
     if t is not None: args.append("t=%d" % t)
     if cs is not None:
         from spec import cal
@@ -278,6 +313,7 @@ def _replay_exe():
     return out
 
 def replay(case):
+    if "builtin" in case: return native_load_check(b"", builtin=case["builtin"])
     return native_load_check(bytes(case["image"]), t=case.get("t"), cs=case.get("cs"))
 
 def run(tier):
@@ -292,8 +328,9 @@ def run(tier):
         jobs.append(("Load+queries:v2,timecnt=1,typecnt=1", job_load, {"version": 2, "timecnt": 1, "typecnt": 1, "queries": True}))
     lean = [(1, 1, 2)] if tier == "quick" else [(1, 1, 2), (1, 2, 2), (2, 1, 2), (2, 2, 2), (1, 2, 3)]
     jobs += [("Load(lean):v%d,timecnt=%d,typecnt=%d" % s, job_load, {"version": s[0], "timecnt": s[1], "typecnt": s[2], "charcnt_max": 1, "lean": True, "queries": False}) for s in lean]
-    ft = [(1, 2, 2)] if tier == "quick" else [(1, 2, 2), (2, 2, 2), (1, 3, 3)]
+    ft = [(1, 2, 2)] if tier == "quick" else [(1, 2, 2), (2, 2, 2)]
     jobs += [("Load(lean,fixed times):v%d,timecnt=%d,typecnt=%d" % s_, job_load, {"version": s_[0], "timecnt": s_[1], "typecnt": s_[2], "charcnt_max": 1, "lean": True, "queries": False, "fixed_times": True}) for s_ in ft]
+    jobs.append(("Builtin:ResetToBuiltinUTC(every offset within +-24h) => WF", job_builtin, {}))
     jobs.append(("Load:v1,timecnt=1,typecnt=256(8-bit default-type search)", job_load, {"version": 1, "timecnt": 1, "typecnt": 256, "charcnt_max": 1, "big_types": True}))
     # the footer: every NUL-free byte string up to FL bytes through the real ParsePosixSpec (E2 units of C16: bounds, NULL and
     # overflow obligations of each sub-parser with its lower levels replaced by their contracts)
@@ -307,6 +344,11 @@ def run(tier):
     for r, j in zip(results, jobs):
         for fobj in r["failed"]:
             m = fobj["model"]
+            if r["name"].startswith("Builtin:"):
+                w = native_load_check(b"", builtin=m.get("offset", 0))
+                if w: rep.violation("builtin:%s" % fobj["desc"][:60], w.replace("image", "image (built-in fixed-offset zone, offset %d)" % m.get("offset", 0)) + "  [%s: %s]" % (r["name"], fobj["desc"]), {"builtin": m.get("offset", 0)})
+                else: rep.spurious.append({"job": r["name"], "obligation": fobj["desc"], "model": m})
+                continue
             if r["name"].startswith("footer:"):
                 # embed the string (and completions of it) as the footer of a small valid version-2 image and load that natively
                 hit = None
